@@ -143,7 +143,8 @@ class Gen:
         if attr.get("target"):
             target = "tw::t%d" % (k % 4)
             parts.append('target = "%s"' % target)
-        skip = [s for s in attr.get("skip", []) if s == "psp" or s in fields]
+        # (`_self` is never skipped: a mis-expansion that renames it must still compile to be caught)
+        skip = [s for s in attr.get("skip", []) if (s == "psp" or s in fields) and s != "_self"]
         if attr.get("skip_all"):
             parts.append("skip_all")
             fields = {}
